@@ -572,6 +572,8 @@ impl<'tcx> Facts<'tcx> {
                 .f("cast", self.operand(owner, body, op))
                 .f("kind", J::s(format!("{:?}", kind)))
                 .f("to", J::s(format!("{}", ty)))
+                .f("to_ty", self.ty_tree(*ty, 0))
+                .f("from_ty", self.ty_tree(op.ty(&body.local_decls, tcx), 0))
                 .done(),
             Rvalue::BinaryOp(op, ab) => J::obj()
                 .f("binop", J::s(format!("{:?}", op)))
